@@ -75,6 +75,21 @@ partial def showOpHex : QL.Op → String
 
 def showQual : QL.Qual → String | .normal => "N" | .metadata => "M"
 
+/-- `usize::from_str_radix(s, 10)` on a 64-bit target: an optional `+`, digits, below 2^64 -/
+def parseUsizeTok (s : List Char) : Option Nat :=
+  let body := match s with | '+' :: r => r | r => r
+  if !allDigits body then none else
+    let n := (String.ofList body).toNat!
+    if n < 2 ^ 64 then some n else none
+
+def showCursorT : Cursor → String
+  | .b n => s!"b{n}"
+  | .e z => s!"e{z}"
+
+def showOff : Option (Cursor × Cursor) → String
+  | none => "-"
+  | some (b, e) => s!"{showCursorT b}:{showCursorT e}"
+
 /-- canonical rendering of a constraint of the modelled kinds -/
 def showCn : QL.Cn → String
   | .id s => s!"id {hexOf s}"
@@ -90,6 +105,14 @@ def showCn : QL.Cn → String
   | .keyValue set key o q => s!"keyvalue {hexOf set} {hexOf key} {showQual q} {showOpHex o}"
   | .dataVar v q => s!"datavar {hexOf v} {showQual q}"
   | .keyValueVar v o q => s!"keyvaluevar {hexOf v} {showQual q} {showOpHex o}"
+  | .annotation s q r off => s!"annotation {hexOf s} {showQual q} {if r then 1 else 0} {showOff off}"
+  | .annotationVar v q r off => s!"annotationvar {hexOf v} {showQual q} {if r then 1 else 0} {showOff off}"
+  | .resource s q off => s!"resource {hexOf s} {showQual q} {showOff off}"
+  | .resourceVar v q off => s!"resourcevar {hexOf v} {showQual q} {showOff off}"
+  | .relation v op => s!"relation {hexOf v} {String.ofList op}"
+  | .value o q => s!"value {showQual q} {showOpHex o}"
+  | .keyVar v q => s!"keyvar {hexOf v} {showQual q}"
+  | .limit b e => s!"limit {b} {e}"
 
 /-- canonical rendering of a SELECT query -/
 partial def showQ : QL.Q → String
@@ -101,7 +124,7 @@ partial def showQ : QL.Q → String
 /-- the external functions for a query line: `bad` lists (hex, comma separated) the strings `Regex::new` refuses -/
 def extOf (bad : String) : QL.Ext :=
   let badList := if bad = "-" then [] else (bad.splitOn ",").filterMap unhex
-  { parseI := parseIsize, parseF := parseFloatLit, isDt := isDatetimeLit, regexOk := fun s => !badList.contains s }
+  { parseI := parseIsize, parseF := parseFloatLit, isDt := isDatetimeLit, regexOk := fun s => !badList.contains s, parseNat := parseUsizeTok }
 
 /-- `ql arg <hex>` / `ql type <hex> <quoted>` / `ql op <ophex> <valuehex> <quoted>` / `ql cn <hex> <reok>` / `ql q <hex> <bad>` -/
 def ql (args : List String) : String :=
@@ -128,7 +151,7 @@ def ql (args : List String) : String :=
   | ["cn", h, reok] =>
     match unhex h with
     | some s =>
-      match QL.parseCn parseIsize parseFloatLit isDatetimeLit (fun _ => reok = "1") s with
+      match QL.parseCnAll parseIsize parseFloatLit isDatetimeLit (fun _ => reok = "1") parseUsizeTok s with
       | .ok (c, r) =>
         let printed := match QL.printCn (fun n => (toString n).toList) c with | some t => hexOf t | none => "~"
         s!"ok | {showCn c} | {hexOf r} | {printed}"
